@@ -48,6 +48,51 @@ def main():
     consts = dict(re.findall(r"const (MAX_TOKEN_LEN|MAX_ELEMENTS): usize = (\d+);", rp))
     if set(consts) != {"MAX_TOKEN_LEN", "MAX_ELEMENTS"}:
         print("cannot find MAX_TOKEN_LEN / MAX_ELEMENTS"); return 1
+    # ---- guards and use sites (round 3): everything below is pinned by `example`s at the end of Model/C05.lean, so a
+    # change of a comparison, a delimiter, a regex or a flag row regenerates a different constant and breaks the build
+    def lean_str(t):
+        return '"' + t.replace("\\", "\\\\").replace('"', '\\"') + '"'
+    regexes = re.findall(r'Regex::new\(r"([^"]*)"\)', rp)
+    if len(regexes) != 2:
+        print(f"expected 2 regexes, found {len(regexes)}"); return 1
+    re_elem, re_target = regexes
+    if "reftype" not in re_elem or "reftype" in re_target:
+        print("regex order changed"); return 1
+    code = re.sub(r"//[^\n]*", "", rp)   # no comments
+    tok_uses = re.findall(r"token\.len\(\)\s*(\S+)\s*Self::MAX_TOKEN_LEN\s*\{\s*(?:error!\([^;]*\);\s*)?(break|return Err\(\(\)\))", code)
+    if len(tok_uses) != 1 or len(re.findall(r"MAX_TOKEN_LEN", code)) != 2:
+        print(f"MAX_TOKEN_LEN: unexpected use sites {tok_uses}"); return 1
+    el_uses = re.findall(r"elements\.len\(\)\s*(\S+)\s*Self::MAX_ELEMENTS\s*\{\s*(?:error!\([^;]*\);\s*)?(break|return Err\(\(\)\))", code)
+    if len(el_uses) != 2 or len(re.findall(r"MAX_ELEMENTS", code)) != 3:
+        print(f"MAX_ELEMENTS: unexpected use sites {el_uses}"); return 1
+    m = re.search(r"match c \{\s*'(.)' => \{\s*escaped_char = true;\s*\}\s*((?:'.'\s*\|?\s*)+)=> \{\s*if !token\.is_empty\(\) \{", code)
+    if not m:
+        print("cannot read the tokenizer's match"); return 1
+    esc_char, delims = m.group(1), re.findall(r"'(.)'", m.group(2))
+    if not re.search(r'fn escape_browse_name.*?BROWSE_NAME_RESERVED_CHARS\.chars\(\)\.for_each\(\|c\| \{\s*result = result\.replace\(c, &format!\("&\{\}", c\)\);', code, re.S) or \
+       not re.search(r'fn unescape_browse_name.*?BROWSE_NAME_RESERVED_CHARS\.chars\(\)\.for_each\(\|c\| \{\s*result = result\.replace\(&format!\("&\{\}", c\), &c\.to_string\(\)\);', code, re.S):
+        print("escape/unescape folds changed shape"); return 1
+    short = re.findall(r'"([/.])" => \(ReferenceTypeId::(\w+)\.into\(\), (true|false), (true|false)\)', code)
+    if [c for c, *_ in short] != ["/", "."]:
+        print(f"short reference forms: {short}"); return 1
+    flags = re.findall(r'"([#!]+)" => \((true|false), (true|false)\)', code)
+    m = re.search(r'match flags\.as_str\(\) \{(.*?)\}\s*\} else \{\s*\((true|false), (true|false)\)', code, re.S)
+    if not m or len(re.findall(r"=>", m.group(1))) != len(flags) + 1:
+        print("flags table changed shape"); return 1
+    no_flags = (m.group(2), m.group(3))
+    if not re.search(r"pub fn default_node_resolver[^{]*\{\s*let node_id = if namespace == 0 \{\s*match browse_name", code):
+        print("default_node_resolver: the table's namespace condition changed"); return 1
+    if not re.search(r"Identifier::Numeric\(id\) => \{\s*if node_id\.namespace == 0 \{\s*Self::id_from_reference_type\(\*id\)\s*\} else \{\s*None", code):
+        print("default_browse_name_resolver: the numeric arm changed"); return 1
+    m = re.search(r"let always_use_namespace = (true|false);", code)
+    if not m:
+        print("always_use_namespace not found"); return 1
+    always_ns = m.group(1)
+    m = re.search(r'if namespace == "0" \|\| namespace\.is_empty\(\) \{\s*node_resolver\(0, browse_name\)\s*\} else if let Ok\(namespace\) = namespace\.parse::<(\w+)>\(\)', code)
+    m2 = re.search(r'fn target_name.*?namespace\.as_str\(\)\.parse::<(\w+)>\(\)', code, re.S)
+    if not m or not m2:
+        print("namespace index parsing changed shape"); return 1
+    ns_types = (m.group(1), m2.group(1))
     out = ["-- GENERATED by tools/translate/reftypes.py from lib/src/types/relative_path.rs and node_ids.rs — do not edit",
            "namespace OpcuaVerif.Generated.RefTypes", "",
            "/-- `default_node_resolver`, namespace 0: browse name → numeric reference type id -/",
@@ -63,6 +108,27 @@ def main():
             "def reserved : List Char := " + chars(reserved),
             "def maxTokenLen : Nat := " + consts["MAX_TOKEN_LEN"],
             "def maxElements : Nat := " + consts["MAX_ELEMENTS"],
+            "", "/-! guards and use sites -/",
+            "/-- the element regex of `RelativePathElement::from_str` -/",
+            "def reElem : String := " + lean_str(re_elem),
+            "/-- the regex of `target_name` -/",
+            "def reTarget : String := " + lean_str(re_target),
+            "/-- `token.len() <cmp> MAX_TOKEN_LEN` and what follows (the only use of the constant) -/",
+            "def tokenLenGuard : String × String := (%s, %s)" % (lean_str(tok_uses[0][0]), lean_str(tok_uses[0][1])),
+            "/-- `elements.len() <cmp> MAX_ELEMENTS`: inside the loop, after the loop (the only uses) -/",
+            "def elementsGuards : List (String × String) := [%s]" % ", ".join("(%s, %s)" % (lean_str(a), lean_str(c)) for a, c in el_uses),
+            "/-- the tokenizer: the escape character and the characters that start a new token -/",
+            "def escapeChar : Char := '%s'" % esc_char,
+            "def delims : List Char := " + chars(delims),
+            "/-- `/` and `.`: reference type, include_subtypes, is_inverse -/",
+            "def shortForms : List (Char × Nat × Bool × Bool) := [%s]" % ", ".join("('%s', %d, %s, %s)" % (c, enum[e], i, v) for c, e, i, v in short),
+            "/-- flags inside `<…>`: include_subtypes, is_inverse; and the value without flags -/",
+            "def flagRows : List (List Char × Bool × Bool) := [%s]" % ", ".join("(%s, %s, %s)" % (chars(f), i, v) for f, i, v in flags),
+            "def noFlags : Bool × Bool := (%s, %s)" % no_flags,
+            "/-- the printer's `always_use_namespace` -/",
+            "def alwaysUseNamespace : Bool := " + always_ns,
+            "/-- integer type of the namespace index: reference type, target name -/",
+            "def nsIndexTypes : String × String := (%s, %s)" % (lean_str(ns_types[0]), lean_str(ns_types[1])),
             "", "end OpcuaVerif.Generated.RefTypes", ""]
     text = "\n".join(out)
     path = f"{root}/lean/OpcuaVerif/Generated/RefTypes.lean"
